@@ -1,0 +1,170 @@
+//! A key operation that fails while its key map is written is rolled back in
+//! memory *and* in what later metadata flushes persist: the key of the failed
+//! request must not become a credential after a restart.
+
+use anda_db_server::{AppState, ServerOptions, build_router};
+use anda_object_store::{FaultKind, FaultOp, FaultRule, FaultStore};
+use axum::{
+    Router,
+    body::Body,
+    http::{Request, StatusCode, header},
+};
+use http_body_util::BodyExt;
+use object_store::{ObjectStore, memory::InMemory};
+use serde_json::{Value, json};
+use std::{sync::Arc, time::Duration};
+use tower::ServiceExt;
+
+const PRIMARY_DB: &str = "main_db";
+const ADMIN_KEY: &str = "admin-secret";
+
+async fn start(store: Arc<dyn ObjectStore>) -> (AppState, Router) {
+    let options = ServerOptions {
+        name: "test".to_string(),
+        version: "0.0.0".to_string(),
+        primary_db: PRIMARY_DB.to_string(),
+        api_key: Some(ADMIN_KEY.to_string()),
+        flush_interval: Duration::from_secs(600),
+        ..Default::default()
+    };
+    let state = AppState::connect(store, options)
+        .await
+        .expect("failed to connect AppState");
+    let app = build_router(state.clone());
+    (state, app)
+}
+
+async fn rpc(
+    app: &Router,
+    token: &str,
+    path: &str,
+    method: &str,
+    params: Value,
+) -> (StatusCode, Value) {
+    let body = serde_json::to_vec(&json!({"method": method, "params": params})).unwrap();
+    let resp = app
+        .clone()
+        .oneshot(
+            Request::post(path)
+                .header(header::CONTENT_TYPE, "application/json")
+                .header(header::AUTHORIZATION, format!("Bearer {token}"))
+                .body(Body::from(body))
+                .unwrap(),
+        )
+        .await
+        .unwrap();
+    let status = resp.status();
+    let bytes = resp.into_body().collect().await.unwrap().to_bytes();
+    (status, serde_json::from_slice(&bytes).unwrap())
+}
+
+fn one_put_error_on_primary(skip: u64) -> FaultRule {
+    FaultRule {
+        op: FaultOp::Put,
+        path_contains: Some(format!("{PRIMARY_DB}/")),
+        skip,
+        times: 1,
+        kind: FaultKind::Error,
+    }
+}
+
+#[tokio::test]
+async fn key_of_a_failed_create_is_no_credential_after_restart() {
+    let mut failed = 0;
+    for skip in 0..16u64 {
+        let (fault_store, faults) = FaultStore::wrap(InMemory::new());
+        let store: Arc<dyn ObjectStore> = Arc::new(fault_store);
+        let (state, app) = start(store.clone()).await;
+
+        faults.push_rule(one_put_error_on_primary(skip));
+        let (status, _) = rpc(
+            &app,
+            ADMIN_KEY,
+            "/",
+            "db.create",
+            json!({"name": "tenant_x", "api_key": "failed-request-key"}),
+        )
+        .await;
+        faults.reset();
+        if status == StatusCode::OK {
+            state.shutdown().await;
+            break;
+        }
+        failed += 1;
+
+        // The operator brings the database up under the admin key alone; the
+        // registry update flushes the primary database's metadata.
+        let (status, _) = rpc(
+            &app,
+            ADMIN_KEY,
+            "/",
+            "db.connect",
+            json!({"name": "tenant_x"}),
+        )
+        .await;
+        assert_eq!(status, StatusCode::OK, "skip {skip}");
+        let (status, _) = rpc(
+            &app,
+            "failed-request-key",
+            "/tenant_x",
+            "db.metadata",
+            Value::Null,
+        )
+        .await;
+        assert_eq!(status, StatusCode::UNAUTHORIZED, "skip {skip}");
+
+        state.shutdown().await;
+        let (state, app) = start(store).await;
+        let (status, _) = rpc(
+            &app,
+            "failed-request-key",
+            "/tenant_x",
+            "db.metadata",
+            Value::Null,
+        )
+        .await;
+        assert_eq!(
+            status,
+            StatusCode::UNAUTHORIZED,
+            "skip {skip}: the key of a failed db.create opens tenant_x after a restart"
+        );
+        state.shutdown().await;
+    }
+    assert!(failed >= 2, "the fault never hit the request");
+}
+
+#[tokio::test]
+async fn failed_rotation_keeps_the_old_key_across_restart() {
+    let (fault_store, faults) = FaultStore::wrap(InMemory::new());
+    let store: Arc<dyn ObjectStore> = Arc::new(fault_store);
+    let (state, app) = start(store.clone()).await;
+    let (status, _) = rpc(
+        &app,
+        ADMIN_KEY,
+        "/",
+        "db.create",
+        json!({"name": "tenant_x", "api_key": "old-key"}),
+    )
+    .await;
+    assert_eq!(status, StatusCode::OK);
+
+    faults.push_rule(one_put_error_on_primary(0));
+    let (status, _) = rpc(
+        &app,
+        ADMIN_KEY,
+        "/",
+        "db.set_api_key",
+        json!({"name": "tenant_x", "api_key": "new-key"}),
+    )
+    .await;
+    faults.reset();
+    assert!(status.is_server_error(), "{status}");
+
+    state.shutdown().await;
+    let (state, app) = start(store).await;
+    let (status, _) = rpc(&app, "old-key", "/tenant_x", "db.metadata", Value::Null).await;
+    assert_eq!(status, StatusCode::OK);
+    let (status, _) = rpc(&app, "new-key", "/tenant_x", "db.metadata", Value::Null).await;
+    assert_eq!(status, StatusCode::UNAUTHORIZED);
+    state.shutdown().await;
+}
